@@ -916,7 +916,8 @@ fn fwd_one(rng: &mut rand::rngs::StdRng, idx: usize, dir: &str) -> Vec<Value> {
     stopf.store(true, std::sync::atomic::Ordering::Relaxed);
     let _ = agent.join();
     let _ = std::fs::remove_file(&path);
-    let extra = FWD_LOG.lock().unwrap().len() - attempts_seen.min(FWD_LOG.lock().unwrap().len());
+    let total_attempts = FWD_LOG.lock().unwrap().len();
+    let extra = total_attempts - attempts_seen.min(total_attempts);
     ev.push(json!({"p": 0, "ev": "agent.got", "a": got.lock().unwrap().clone(), "extra_attempts": extra, "timed_out": timed_out}));
     std::mem::forget(recorder);
     ev
